@@ -3,9 +3,11 @@
 -/
 import StVerif.Model.Compare
 import StVerif.Lemmas.Search
+import StVerif.Lemmas.CompareSpec
 
 namespace StVerif.Lemmas.Compare
 open StVerif StVerif.Search StVerif.Compare StVerif.Spec.Search StVerif.Lemmas.Search
+open StVerif.Spec.Compare StVerif.Lemmas.CompareSpec
 
 theorem schar_eq_iff (x y : Nat) (hx : x < 256) (hy : y < 256) : schar x = schar y ↔ x = y := by
   unfold schar toSigned
@@ -22,6 +24,8 @@ theorem upper_lt (b : Nat) (h : b < 256) : upper b < 256 := by
 
 theorem sizeDiffNarrowed_self (n : Nat) : sizeDiffNarrowed n n = 0 := by
   simp [sizeDiffNarrowed, wrap64, toI32]
+
+theorem sizeOrder_self (n : Nat) : sizeOrder n n = 0 := by simp [sizeOrder]
 
 /-- the traits comparison of two equally long texts is zero exactly for equal texts, wherever the
     element order distinguishes the units involved -/
@@ -82,5 +86,312 @@ theorem compareCi3_eq_zero_iff (a b : List Nat) (h : a.length = b.length) (ha : 
       · rw [if_pos hc]
         have : lower x ≠ lower y := fun e => hc (inj.2 e)
         simp [this]; omega
+
+/-! ### the model's prefix comparisons are the Spec's three-way comparison on equally long texts -/
+
+theorem traitsCompare_eq_lexSign (e : Elem) (a b : List Nat) (h : a.length = b.length) :
+    traitsCompare e a b = lexSign e.key a b := by
+  induction a generalizing b with
+  | nil => cases b with
+    | nil => rfl
+    | cons y ys => simp at h
+  | cons x xs ih =>
+    cases b with
+    | nil => simp at h
+    | cons y ys =>
+      simp only [List.length_cons, Nat.add_right_cancel_iff] at h
+      unfold traitsCompare lexSign
+      rw [ih ys h]
+
+/-- the order `compare_ci` sorts by: the folded byte as a signed char -/
+def ciKey (x : Nat) : Int := schar (lower x)
+
+theorem compareCi3_sign (a b : List Nat) (h : a.length = b.length) :
+    Int.sign (compareCi3 a b) = lexSign ciKey a b := by
+  induction a generalizing b with
+  | nil => cases b with
+    | nil => rfl
+    | cons y ys => simp at h
+  | cons x xs ih =>
+    cases b with
+    | nil => simp at h
+    | cons y ys =>
+      simp only [List.length_cons, Nat.add_right_cancel_iff] at h
+      unfold compareCi3 lexSign
+      simp only []
+      rw [show schar (lower x) = ciKey x from rfl, show schar (lower y) = ciKey y from rfl]
+      by_cases h1 : ciKey x < ciKey y
+      · have hne : ciKey x ≠ ciKey y := by omega
+        rw [if_pos hne, if_pos h1]
+        exact Int.sign_eq_neg_one_of_neg (by omega)
+      · by_cases h2 : ciKey y < ciKey x
+        · have hne : ciKey x ≠ ciKey y := by omega
+          rw [if_pos hne, if_neg h1, if_pos h2]
+          exact Int.sign_eq_one_of_pos (by omega)
+        · have he : ¬ (ciKey x ≠ ciKey y) := by omega
+          rw [if_neg he, if_neg h1, if_neg h2]
+          exact ih ys h
+
+theorem sign_lexSign (key : Nat → Int) (a b : List Nat) : Int.sign (lexSign key a b) = lexSign key a b := by
+  rcases lexSign_range key a b with h | h | h <;> rw [h] <;> rfl
+
+theorem sign_lengthOrder (la lb : Nat) : Int.sign (lengthOrder la lb) = lengthOrder la lb := by
+  unfold lengthOrder; split
+  · rfl
+  · split <;> rfl
+
+theorem take_min_length (a b : List Nat) :
+    (a.take (min a.length b.length)).length = (b.take (min a.length b.length)).length := by
+  simp only [List.length_take]; omega
+
+/-- the narrowed size difference has the sign of the size comparison as long as the difference fits an `int` -/
+theorem sizeDiffNarrowed_sign (ls rs : Nat) (_h1 : ls < 2 ^ 64) (_h2 : rs < 2 ^ 64)
+    (hd : (ls : Int) - rs < 2 ^ 31 ∧ (rs : Int) - ls ≤ 2 ^ 31) :
+    Int.sign (sizeDiffNarrowed ls rs) = lengthOrder ls rs := by
+  unfold sizeDiffNarrowed wrap64 toI32 lengthOrder
+  by_cases hlt : ls < rs
+  · rw [if_pos hlt]
+    have e : (((ls : Int) - rs) % (2 ^ 64 : Int)).toNat = 2 ^ 64 - (rs - ls) := by omega
+    rw [e]
+    apply Int.sign_eq_neg_one_of_neg
+    split <;> omega
+  · rw [if_neg hlt]
+    have e : (((ls : Int) - rs) % (2 ^ 64 : Int)).toNat = ls - rs := by omega
+    rw [e]
+    by_cases hgt : rs < ls
+    · rw [if_pos hgt]
+      apply Int.sign_eq_one_of_pos
+      split <;> omega
+    · rw [if_neg hgt]
+      have : ls - rs = 0 := by omega
+      rw [this]; rfl
+
+theorem sizeOrder_eq_lengthOrder (ls rs : Nat) : sizeOrder ls rs = lengthOrder ls rs := rfl
+
+/-! ### the repaired `compare` is the Spec's three-way comparison -/
+
+/-- `buffer<char_T>::compare` on two whole texts *is* `lexSign` in the element order (value, not only sign) -/
+theorem compareSized_eq_lexSign (e : Elem) (a b : List Nat) :
+    compareSized e a a.length b b.length = lexSign e.key a b := by
+  unfold compareSized
+  simp only []
+  rw [traitsCompare_eq_lexSign e _ _ (take_min_length a b), lexSign_decomp e.key a b, sizeOrder_eq_lengthOrder]
+
+theorem compareCiSized_sign (a b : List Nat) :
+    Int.sign (compareCiSized a a.length b b.length) = lexSign ciKey a b := by
+  unfold compareCiSized
+  simp only []
+  rw [lexSign_decomp ciKey a b]
+  simp only []
+  have h := compareCi3_sign _ _ (take_min_length a b)
+  by_cases hz : compareCi3 (a.take (min a.length b.length)) (b.take (min a.length b.length)) = 0
+  · have : lexSign ciKey (a.take (min a.length b.length)) (b.take (min a.length b.length)) = 0 := by
+      rw [← h, hz]; rfl
+    rw [if_neg (by simpa using hz), if_neg (by simpa using this), sizeOrder_eq_lengthOrder, sign_lengthOrder]
+  · have : lexSign ciKey (a.take (min a.length b.length)) (b.take (min a.length b.length)) ≠ 0 := by
+      rw [← h]; intro h0; exact hz (Int.sign_eq_zero_iff_zero.1 h0)
+    rw [if_pos hz, if_pos this, h]
+
+/-- the order a comparison in mode `cs` sorts `char` strings by -/
+def modeKey : CaseMode → Nat → Int
+  | .sensitive => unsignedKey
+  | .insensitive => ciKey
+
+theorem compareMode_sign (cs : CaseMode) (a b : List Nat) :
+    Int.sign (compareMode cs a a.length b b.length) = lexSign (modeKey cs) a b := by
+  cases cs with
+  | sensitive =>
+    simp only [compareMode, modeKey, compareSized_eq_lexSign]
+    exact sign_lexSign ..
+  | insensitive => exact compareCiSized_sign a b
+
+/-! ### only the common prefix is read -/
+
+theorem compareSized_congr (e : Elem) (l l' r r' : List Nat) (ls rs : Nat)
+    (hl : l.take (min ls rs) = l'.take (min ls rs)) (hr : r.take (min ls rs) = r'.take (min ls rs)) :
+    compareSized e l ls r rs = compareSized e l' ls r' rs := by
+  simp only [compareSized, hl, hr]
+
+theorem compareCiSized_congr (l l' r r' : List Nat) (ls rs : Nat)
+    (hl : l.take (min ls rs) = l'.take (min ls rs)) (hr : r.take (min ls rs) = r'.take (min ls rs)) :
+    compareCiSized l ls r rs = compareCiSized l' ls r' rs := by
+  simp only [compareCiSized, hl, hr]
+
+theorem compareMode_congr (cs : CaseMode) (l l' r r' : List Nat) (ls rs : Nat)
+    (hl : l.take (min ls rs) = l'.take (min ls rs)) (hr : r.take (min ls rs) = r'.take (min ls rs)) :
+    compareMode cs l ls r rs = compareMode cs l' ls r' rs := by
+  cases cs
+  · exact compareSized_congr _ _ _ _ _ _ _ hl hr
+  · exact compareCiSized_congr _ _ _ _ _ _ hl hr
+
+/-! ### right-hand operand forms -/
+
+end StVerif.Lemmas.Compare
+
+namespace StVerif.Compare
+/-- the text a right-hand operand denotes -/
+def Rhs.text : Rhs → List Nat
+  | .str b => b
+  | .cstr none => []
+  | .cstr (some p) => Spec.Search.cstr p
+end StVerif.Compare
+
+namespace StVerif.Lemmas.Compare
+open StVerif StVerif.Search StVerif.Compare StVerif.Spec.Search StVerif.Lemmas.Search
+open StVerif.Spec.Compare StVerif.Lemmas.CompareSpec
+
+theorem take_strlen (p : List Nat) : p.take (strlen p) = cstr p := by
+  induction p with
+  | nil => rfl
+  | cons c rest ih =>
+    unfold strlen cstr
+    by_cases hc : c = 0
+    · subst hc; simp
+    · rw [if_neg hc]
+      simp only [List.take_succ_cons, List.takeWhile_cons, ne_eq, hc, not_false_eq_true, decide_true, if_true]
+      rw [ih]; rfl
+
+theorem strlen_eq (p : List Nat) : strlen p = (cstr p).length := by
+  rw [← take_strlen, List.length_take]
+  have : strlen p ≤ p.length := by
+    induction p with
+    | nil => simp [strlen]
+    | cons c rest ih => unfold strlen; split <;> simp <;> omega
+  omega
+
+theorem Rhs.size_eq (r : Rhs) : r.size = r.text.length := by
+  cases r with
+  | str b => rfl
+  | cstr p => cases p with
+    | none => rfl
+    | some p => exact strlen_eq p
+
+theorem Rhs.take_data (r : Rhs) (m : Nat) (h : m ≤ r.size) : r.data.take m = r.text.take m := by
+  cases r with
+  | str b => rfl
+  | cstr p => cases p with
+    | none => rfl
+    | some p =>
+      simp only [Rhs.data, Rhs.text, Rhs.size] at *
+      rw [← take_strlen, List.take_take, Nat.min_eq_left h]
+
+/-- every right-hand form compares as the text it denotes -/
+theorem strCompare_eq_text (cs : CaseMode) (a : List Nat) (r : Rhs) :
+    strCompare cs a r = strCompare cs a (.str r.text) := by
+  show compareMode cs a a.length r.data r.size = compareMode cs a a.length r.text r.text.length
+  rw [← Rhs.size_eq]
+  exact compareMode_congr cs _ _ _ _ _ _ rfl (Rhs.take_data r _ (Nat.min_le_right ..))
+
+theorem strCompareN_eq_text (cs : CaseMode) (a : List Nat) (r : Rhs) (n : Nat) :
+    strCompareN cs a r n = strCompareN cs a (.str r.text) n := by
+  show compareModeN cs a a.length r.data r.size n = compareModeN cs a a.length r.text r.text.length n
+  rw [← Rhs.size_eq]
+  cases cs
+  · exact compareSized_congr _ _ _ _ _ _ _ rfl (Rhs.take_data r _ (by omega))
+  · exact compareCiSized_congr _ _ _ _ _ _ rfl (Rhs.take_data r _ (by omega))
+
+theorem bufCompare_eq_text (e : Elem) (a : List Nat) (r : Rhs) :
+    bufCompare e a r = bufCompare e a (.str r.text) := by
+  show compareSized e a a.length r.data r.size = compareSized e a a.length r.text r.text.length
+  rw [← Rhs.size_eq]
+  exact compareSized_congr e _ _ _ _ _ _ rfl (Rhs.take_data r _ (Nat.min_le_right ..))
+
+theorem bufCompareN_eq_text (e : Elem) (a : List Nat) (r : Rhs) (n : Nat) :
+    bufCompareN e a r n = bufCompareN e a (.str r.text) n := by
+  show compareSizedN e a a.length r.data r.size n = compareSizedN e a a.length r.text r.text.length n
+  rw [← Rhs.size_eq]
+  exact compareSized_congr e _ _ _ _ _ _ rfl (Rhs.take_data r _ (by omega))
+
+/-! ### `compare_n` is `compare` of the first `n` units -/
+
+theorem compareSizedN_eq_take (e : Elem) (a b : List Nat) (n : Nat) :
+    compareSizedN e a a.length b b.length n = compareSized e (a.take n) (a.take n).length (b.take n) (b.take n).length := by
+  unfold compareSizedN
+  simp only [List.length_take, Nat.min_comm n]
+  apply compareSized_congr
+  · rw [List.take_take]; congr 1; omega
+  · rw [List.take_take]; congr 1; omega
+
+theorem compareCiSizedN_eq_take (a b : List Nat) (n : Nat) :
+    compareCiSizedN a a.length b b.length n = compareCiSized (a.take n) (a.take n).length (b.take n) (b.take n).length := by
+  unfold compareCiSizedN
+  simp only [List.length_take, Nat.min_comm n]
+  apply compareCiSized_congr
+  · rw [List.take_take]; congr 1; omega
+  · rw [List.take_take]; congr 1; omega
+
+/-! ### keys -/
+
+theorem ciKey_eq_iff (x y : Nat) (hx : x < 256) (hy : y < 256) : ciKey x = ciKey y ↔ foldAscii x = foldAscii y := by
+  unfold ciKey
+  rw [schar_eq_iff _ _ (lower_lt x hx) (lower_lt y hy), lower_eq_foldAscii, lower_eq_foldAscii]
+
+theorem map_ciKey_eq_iff (a b : List Nat) (ha : Bytes a) (hb : Bytes b) :
+    a.map ciKey = b.map ciKey ↔ a.map foldAscii = b.map foldAscii := by
+  induction a generalizing b with
+  | nil => cases b <;> simp
+  | cons x xs ih =>
+    cases b with
+    | nil => simp
+    | cons y ys =>
+      have hx : x < 256 := ha x (by simp)
+      have hy : y < 256 := hb y (by simp)
+      have hxs : Bytes xs := fun z hz => ha z (by simp [hz])
+      have hys : Bytes ys := fun z hz => hb z (by simp [hz])
+      simp only [List.map_cons, List.cons.injEq, ciKey_eq_iff x y hx hy, ih ys hxs hys]
+
+theorem toSigned32_inj (x y : Nat) (hx : x < 2 ^ 32) (hy : y < 2 ^ 32) (h : toSigned 32 x = toSigned 32 y) : x = y := by
+  unfold toSigned at h
+  split at h <;> split at h <;> omega
+
+theorem key_inj (e : Elem) (x y : Nat) (hx : x < 2 ^ e.bits) (hy : y < 2 ^ e.bits) (h : e.key x = e.key y) : x = y := by
+  cases e with
+  | wchar => exact toSigned32_inj x y hx hy h
+  | char => simp only [Elem.key] at h; omega
+  | char16 => simp only [Elem.key] at h; omega
+  | char32 => simp only [Elem.key] at h; omega
+
+theorem key_unsigned (e : Elem) (h : e ≠ .wchar) : e.key = unsignedKey := by
+  cases e <;> first | rfl | exact absurd rfl h
+
+theorem map_key_inj (e : Elem) (a b : List Nat) (ha : UnitsLt (2 ^ e.bits) a) (hb : UnitsLt (2 ^ e.bits) b)
+    (h : a.map e.key = b.map e.key) : a = b := by
+  induction a generalizing b with
+  | nil => cases b <;> simp_all
+  | cons x xs ih =>
+    cases b with
+    | nil => simp at h
+    | cons y ys =>
+      simp only [List.map_cons, List.cons.injEq] at h
+      have hx := ha x (by simp)
+      have hy := hb y (by simp)
+      rw [key_inj e x y hx hy h.1, ih ys (fun z hz => ha z (by simp [hz])) (fun z hz => hb z (by simp [hz])) h.2]
+
+/-- on units below 2^31 the signed `wchar_t` order is the unsigned order -/
+theorem lexSign_wchar_low (a b : List Nat) (ha : UnitsLt (2 ^ 31) a) (hb : UnitsLt (2 ^ 31) b) :
+    lexSign (Elem.key .wchar) a b = lexSign unsignedKey a b := by
+  induction a generalizing b with
+  | nil => cases b <;> rfl
+  | cons x xs ih =>
+    cases b with
+    | nil => rfl
+    | cons y ys =>
+      have hx := ha x (by simp)
+      have hy := hb y (by simp)
+      have kx : Elem.key .wchar x = unsignedKey x := by
+        simp only [Elem.key, toSigned, unsignedKey]; split <;> omega
+      have ky : Elem.key .wchar y = unsignedKey y := by
+        simp only [Elem.key, toSigned, unsignedKey]; split <;> omega
+      unfold lexSign
+      rw [kx, ky, ih ys (fun z hz => ha z (by simp [hz])) (fun z hz => hb z (by simp [hz]))]
+
+/-! ### hashes and case maps -/
+
+theorem hashI_eq_hash_map (s : List Nat) : hashI s = Compare.hash (s.map lower) := by
+  unfold hashI Compare.hash
+  rw [List.foldl_map]
+
+theorem upper_spec (c : Nat) : upper c = if isLowerAscii c then c - 32 else c := rfl
+theorem lower_spec (c : Nat) : lower c = if isUpperAscii c then c + 32 else c := rfl
 
 end StVerif.Lemmas.Compare
